@@ -13,7 +13,18 @@ def main():
     ap.add_argument("--replay")
     ap.add_argument("--sub", action="append")
     ap.add_argument("--jobs", type=int, default=int(os.environ.get("VERIF_JOBS", "16")))
+    ap.add_argument("--sanitize", action="store_true",
+                    help="run the same check with the ASan+UBSan build of the library preloaded into python")
     a = ap.parse_args()
+    if a.sanitize and not os.environ.get("VERIF_VARIANT_OVERRIDE"):
+        import subprocess
+        from . import build
+        build.build("asan")
+        rt = subprocess.run(["clang", "-print-file-name=libclang_rt.asan-x86_64.so"], capture_output=True, text=True).stdout.strip()
+        env = dict(os.environ, VERIF_VARIANT_OVERRIDE="asan", LD_PRELOAD=rt,
+                   ASAN_OPTIONS="detect_leaks=0:abort_on_error=1:allocator_may_return_null=1",
+                   UBSAN_OPTIONS="print_stacktrace=1")
+        os.execve(sys.executable, [sys.executable, "-m", "vf.run"] + [x for x in sys.argv[1:]], env)
     deps = os.path.join(VERIF, ".deps")
     if os.path.isdir(deps):
         sys.path.insert(0, deps)
